@@ -359,7 +359,10 @@ def run(ctx):
                 "variants (validation limits, every documented language tag, optional parameters), plus non-default host/power/region; "
                 "each real call runs against a scripted request callback and every request handed to it is compared byte for byte with "
                 "the compiled Lean model; set_system_version swept over 880..1930 and outliers; response classification over "
-                "status x payload (every documented error code, malformed payloads). A case is non-trivial when it issues a request or "
+                "status x payload (every documented error code, malformed payloads); per call and per feature (method / header order / "
+                "query keys / body keys / outcome) the captured real requests may change only at the boundaries documented for that call; ONE "
+                "object per client is walked up and down through all versions (unknown ones interleaved, order from the seed) with every public "
+                "call after every switch and must send exactly the fresh-client request. A case is non-trivial when it issues a request or "
                 "is refused by a validation rule; distinct = distinct (client, version, call, variant)")
     # second reader of the tables
     for p in st.crosscheck_import(data, "nintendo.switch"):
